@@ -420,9 +420,10 @@ def decide(site, ann, facts):
 
 
 def provenance_summary():
+    import re
     c = {'S': 0, 'D': 0, 'W': 0, 'R': 0, 'DESIGN': 0}
     for r in ROWS:
         for k in c:
-            if (k + ' ') in r['prov'] or r['prov'].startswith(k):
+            if re.search(r'(^|; )' + k + r'( |$|;)', r['prov']):
                 c[k] += 1
     return c
